@@ -305,3 +305,17 @@ pub fn cmp_impl(d1: &Decimal, d2: &Decimal) -> Ordering {
         o
     }
 }
+
+/// Cheap stand-in for `<Decimal as Display>::fmt` in harnesses about the *arrangement* of printed
+/// amounts (order, separators), not about digits: one character per value (rust_decimal's
+/// to_str_internal costs ~32 unwindings per number even for concrete values).
+pub fn display_fmt_tiny(d: &Decimal, f: &mut core::fmt::Formatter<'_>) -> core::fmt::Result {
+    let u = d.unpack();
+    f.write_str(match u.lo {
+        0 => "0",
+        1 => "1",
+        2 => "2",
+        3 => "3",
+        _ => "9",
+    })
+}
